@@ -150,6 +150,8 @@ Section Dag.
       | None => DagErr
       | Some AE =>
         let E := E0 ++ AE in
+        (* second cycle check, after the `after` edges have been added *)
+        if has_cycle E then DagErr else
         let selk :=
           match kexpr c with
           | None | Some [] => Some None
@@ -379,8 +381,8 @@ Section Build.
     match create_dag is_word lower c ts with
     | DagErr => mkRes XDag w [] []
     | DagOk E desel =>
-      (* TopologicalSorter.from_dag raises inside pytask_execute on a cycle that
-         create_dag did not see (one closed through `after`): exit code FAILED *)
+      (* TopologicalSorter.from_dag checks for cycles again; create_dag has already
+         rejected every cyclic graph, so this branch is dead (see Proofs/EngineDag) *)
       match from_dag (task_ids ts) E (map (fun t => (tid t, tprio t)) ts) with
       | None => mkRes XFailed w [] []
       | Some s =>
